@@ -207,13 +207,13 @@ Proof.
 Qed.
 
 Lemma chain_filled_mono (g1 g2 : id -> option marg) :
-  (forall a e, In a (c_args c) -> g1 (a_id a) = Some e -> g2 (a_id a) = Some e) ->
+  (forall a e, In a (c_args c) -> a_index a <> None -> g1 (a_id a) = Some e -> g2 (a_id a) = Some e) ->
   forall pc t, chain_filled g1 pc t -> chain_filled g2 pc t.
 Proof.
   intros H pc t Hc1. induction Hc1 as [pc a t e gs early t' Hg Hm Ht He Hr Hf|pc a tok e gs t' Hg Hm He Hr Hf|pc a tok t e gs t' Hg Hm Ht He Hr Hf _ IH].
-  - eapply CF_sink; try eassumption. apply H; [exact (proj1 (get_pos_in _ _ _ Hg))|exact He].
-  - eapply CF_last; try eassumption. apply H; [exact (proj1 (get_pos_in _ _ _ Hg))|exact He].
-  - eapply CF_single; try eassumption. apply H; [exact (proj1 (get_pos_in _ _ _ Hg))|exact He].
+  - eapply CF_sink; try eassumption. apply H; [exact (proj1 (get_pos_in _ _ _ Hg))|exact (proj2 (get_pos_in _ _ _ Hg))|exact He].
+  - eapply CF_last; try eassumption. apply H; [exact (proj1 (get_pos_in _ _ _ Hg))|exact (proj2 (get_pos_in _ _ _ Hg))|exact He].
+  - eapply CF_single; try eassumption. apply H; [exact (proj1 (get_pos_in _ _ _ Hg))|exact (proj2 (get_pos_in _ _ _ Hg))|exact He].
 Qed.
 
 Lemma delimit_nil a ti : delimit c a [] ti = Some [].
